@@ -141,6 +141,10 @@ def run(tier: str, seed: int) -> Tuple[Stats, str, List[str], Dict[str, Any]]:
                 want_sup = want and a.ttl > b.ttl / 2
                 if sup != want_sup:
                     bad.append((i, j, f"DNSRRSet.suppresses is {sup}, expected {want_sup}"))
+                # the linear known-answer path (DNSRecord.suppressed_by / DNSOutgoing.add_answer) must agree with it
+                sup2 = b._suppressed_by_answer(a)
+                if bool(sup2) != want_sup:
+                    bad.append((i, j, f"DNSRecord._suppressed_by_answer is {sup2}, expected {want_sup}"))
                 g = cache.async_get_unique(b)
                 if (g is a) != want:
                     bad.append((i, j, f"DNSCache.async_get_unique found={g is a}, identity says {want}"))
